@@ -10,7 +10,7 @@ K_CONTEXT = [
     {'crate': 'p3-circuit', 'harness': 'c19_set_witness_contract', 'profile': 'release'},
 ]
 PROPS = {
-    'C02': {'units': ['opt', 'fuse', 'run19'], 'kani': K_ANALYSIS + [{'crate': 'p3-circuit', 'harness': 'c02_allocator_monotone'}], 'exclude': r'H_dup_out_unmentioned'},
+    'C02': {'units': ['opt', 'fuse', 'run19', 'lower'], 'kani': K_ANALYSIS + [{'crate': 'p3-circuit', 'harness': 'c02_allocator_monotone'}], 'exclude': r'H_dup_out_unmentioned'},
     'C03': {'units': ['opt', 'fuse'], 'kani': K_ANALYSIS},
     'C19': {'units': ['run19'], 'kani': K_CONTEXT},
     'C20': {'units': ['gad', 'fri', 'periodic'], 'kani': [], 'only': {'fri': r'evaluate_polynomial|circuit_exp_by_constant|lemma_'}},
@@ -40,8 +40,11 @@ META = {
                 'WitnessId::resolve returns the unique root of an acyclic rewrite map (termination proved), Op::apply_witness_rewrite maps every slot '
                 'of every op variant through it and touches nothing else, AluKey::{new,with_acc} identify two ALU ops only when their relations coincide '
                 '(lemma_same_key_same_relation over an abstract field), Deduplicator::run keeps the rewrite map acyclic and its kept ops on root slots. '
-                'Unit tests sample a handful of op lists; the loop invariants cover all of them.',
-        'note': 'Kernel only: expression-level folding/CSE (ExpressionBuilder), DSU lowering, MulAddFusion and the runner are NOT under contract yet. '
+                'Unit tests sample a handful of op lists; the loop invariants cover all of them. '
+                'Lowering (unit lower): every LoweringState::emit_* is proved, for every complete witness table, to emit ops whose relation (the one the runner is proved to establish, unit run19) '
+                'holds exactly when the node slot carries the value the Expr node denotes (add, both encodings of sub, mul, backwards-mul division, Horner step, bool check, mul-add), '
+                'emit_operations to dispatch every node to the emitter of its own kind with its own operands, emit_constants/publics/privates to bind every leaf to its value/position.',
+        'note': 'Expression-level folding/CSE (ExpressionBuilder), MulAddFusion::{identify_candidates, filter_valid, apply} and the non-primitive emitters are NOT under contract. '
                 'Trusted: Verus/Z3/vstd, Kani/CBMC, the extractor and its logged rewrites (R1-R12), hashbrown==std HashMap, key model of derived Hash/Eq, '
                 'opaque executors, wf_op shape of lowered ops.',
     },
